@@ -532,7 +532,8 @@ def coupled_g2p_const_control(multinet, element_index_power, element_index_gas, 
         net_power = multinet['nets'][name_power_net]
 
         const = ConstControl(
-            net_power, element='sgen', variable='p_mw', element_index=element_index_power,
+            net_power, element=element_type_power, variable='p_mw',
+            element_index=element_index_power,
             profile_name=profile_name, data_source=data_source, scale_factor=scale_factor,
             in_service=in_service, order=order[0], level=level,
             drop_same_existing_ctrl=drop_same_existing_ctrl, matching_params=matching_params,
